@@ -221,3 +221,28 @@ package getty
 //@   ensures timeout-cleans: selected(0) ==> result1 != nil && syncmapp(g.gettyRemoting.futures)[box(reqMsg.ID, int32)] == nil
 //@   ensures delivers-own: selected(1) ==> result0 == respMsg.Response && result1 == respMsg.Err
 //@   ensures other-requests-untouched: k != reqMsg.ID ==> syncmapp(g.gettyRemoting.futures)[box(k, int32)] == old(syncmapp(g.gettyRemoting.futures)[box(k, int32)])
+
+// ---- C19: session selection and the session registry
+
+//@ func (*SessionManager).selectSession
+//@   prop C19
+//@   requires g != nil
+//@   ensures live: result != nil ==> !ufb("session.closed", result)
+//@   loop 1 invariant none-yet: session == nil && g != nil
+//@   range 1 invariant none-yet: session == nil
+
+//@ func (*SessionManager).registerSession
+//@   prop C19
+//@   requires g != nil && session != nil
+//@   let k := some(getty.Session, "k")
+//@   modifies syncmap(g, "allSessions"), syncmap(g, "serverSessions")
+//@   ensures registered: haskey(syncmap(g, "allSessions"), session)
+//@   ensures others-unchanged: k != session ==> haskey(syncmap(g, "allSessions"), k) == old(haskey(syncmap(g, "allSessions"), k))
+
+//@ func (*SessionManager).releaseSession
+//@   prop C19
+//@   requires g != nil && session != nil
+//@   let k := some(getty.Session, "k")
+//@   modifies syncmap(g, "allSessions"), syncmap(g, "serverSessions")
+//@   ensures released: !haskey(syncmap(g, "allSessions"), session)
+//@   ensures others-unchanged: k != session ==> haskey(syncmap(g, "allSessions"), k) == old(haskey(syncmap(g, "allSessions"), k))
